@@ -43,8 +43,10 @@ func (c *child) genRTCase(r *rand.Rand, ti int) rtCase {
 }
 
 // diffAssertions returns the names of the fields (of the property statement)
-// in which b differs from a.
-func diffAssertions(a, b asserts.Assertion) []string {
+// in which b differs from a. wantSig, when not nil, is the signature b must
+// carry (a's signature with the optional final newline treated as the decoder
+// under test is specified to treat it); nil means a's signature bytes.
+func diffAssertions(a, b asserts.Assertion, wantSig []byte) []string {
 	var d []string
 	if a.Type() != b.Type() {
 		d = append(d, "type")
@@ -66,6 +68,9 @@ func diffAssertions(a, b asserts.Assertion) []string {
 	if !bytes.Equal(ac, bc) {
 		d = append(d, "content")
 	}
+	if wantSig != nil {
+		as = wantSig
+	}
 	if !bytes.Equal(as, bs) {
 		d = append(d, "signature")
 	}
@@ -76,14 +81,27 @@ func b64clip(b []byte) string { return base64.StdEncoding.EncodeToString(clip(b,
 
 // checkDecoded compares one decoded assertion with the original.
 func (c *child) checkDecoded(api string, idx int, cs *rtCase, orig, got asserts.Assertion, err error, enc []byte) bool {
+	return c.checkDecodedSigW(api, idx, cs, orig, got, err, enc, nil, nil)
+}
+
+// checkDecodedSig is checkDecoded with an explicit expected signature.
+func (c *child) checkDecodedSig(api string, idx int, cs *rtCase, orig, got asserts.Assertion, err error, enc, wantSig []byte) bool {
+	return c.checkDecodedSigW(api, idx, cs, orig, got, err, enc, wantSig, nil)
+}
+
+// checkDecodedSigW additionally lets the caller extend the witness.
+func (c *child) checkDecodedSigW(api string, idx int, cs *rtCase, orig, got asserts.Assertion, err error, enc, wantSig []byte, more func(map[string]interface{})) bool {
 	w := map[string]interface{}{"case_index": caseBase[c.mode] + idx, "mode": c.mode, "api": api, "type": cs.t.name,
 		"extra_headers": cs.extra, "body_b64": b64clip(cs.body), "encoded_b64": b64clip(enc)}
+	if more != nil {
+		more(w)
+	}
 	if err != nil || got == nil {
 		w["error"] = fmt.Sprint(err)
 		c.violation("C20:roundtrip:"+api+":rejected", w)
 		return false
 	}
-	if d := diffAssertions(orig, got); len(d) > 0 {
+	if d := diffAssertions(orig, got, wantSig); len(d) > 0 {
 		w["differs_in"] = d
 		w["headers_before"] = orig.Headers()
 		w["headers_after"] = got.Headers()
@@ -277,11 +295,12 @@ func (c *child) planRoundtrip() (int, func(int)) {
 	nStream := kit.Scale(250, 2000)
 	nBoundary := len(boundaryTargets) * 7 * 2
 	nEmpty := len(emptyCollectionCases)
+	nMix := kit.Scale(600, 4000)
 	if c.shard != 0 {
 		// directed families are the same in every shard; run them in shard 0 only
 		nBoundary, nEmpty = 0, 0
 	}
-	total := nSingle + nStream + nBoundary + nEmpty
+	total := nSingle + nStream + nBoundary + nEmpty + nMix
 	return total, func(idx int) {
 		c.res.Evals++
 		switch {
@@ -304,8 +323,10 @@ func (c *child) planRoundtrip() (int, func(int)) {
 			c.roundtripStream(idx, idx-nSingle)
 		case idx < nSingle+nStream+nBoundary:
 			c.roundtripBoundary(idx, idx-nSingle-nStream)
-		default:
+		case idx < nSingle+nStream+nBoundary+nEmpty:
 			c.roundtripEmpty(idx, idx-nSingle-nStream-nBoundary)
+		default:
+			c.roundtripNLMix(idx, idx-nSingle-nStream-nBoundary-nEmpty)
 		}
 	}
 }
